@@ -155,6 +155,23 @@ def dates_trace():
                     row["raised"] = 1
                 rows.append(row)
         ev = [{"e": "Dates", "rows": rows}]
+        # the jump times of an interval given their number (levyprocess.jump_times_from_nb_of_jumps): n uniforms scaled by
+        # the length of the interval, sorted; numpy's uniform source scripted with numerators over 64, dt in eighths
+        from rpylib.process.levyprocess import LevyProcess
+        saved = np.random.random_sample
+        jt = []
+        try:
+            import random as _r
+            rr = _r.Random(7)
+            for k in (1, 2, 5, 8, 24):
+                for n in (0, 1, 2, 5):
+                    js = [rr.randrange(64) for _ in range(n)]
+                    np.random.random_sample = lambda size=None, js=js: np.array(js[:size], dtype=float) / 64.0
+                    res = LevyProcess.jump_times_from_nb_of_jumps(k / 8.0, n)
+                    jt.append({"k": k, "js": js, "res": [exact_int(float(t) * 512.0, tol=1e-9) for t in np.ravel(res)]})
+        finally:
+            np.random.random_sample = saved
+        ev.append({"e": "JumpTimes", "rows": jt})
     except Exception as ex:
         ev = [{"e": "Raise", "what": type(ex).__name__ + ": " + str(ex)[:80]}]
     return {"hdr": {"kind": "product-dates"}, "ev": ev}
